@@ -76,6 +76,37 @@ var c17Shapes = []c17Shape{
 	{"e_two", " /* a */ /* b; */ ", true, true, true},
 }
 
+// c17BrokenShape is a lexically INVALID tail: a construct opened and never closed, with a ';'
+// after the opener. Everything from the start of that statement to the end of the text is
+// inside the broken statement; it can only be the last piece of a text.
+type c17BrokenShape struct {
+	Name string
+	Kind string // comment | quote
+	Tmpl string
+}
+
+var c17Broken = []c17BrokenShape{
+	{"b_cmt_last", "comment", "update t2 set c = 'v' /* keep ; where id = %d"},
+	{"b_cmt_mid", "comment", "select %d /* x ; select 8; select 9"},
+	{"b_cmt_ml", "comment", "select %d /* x\n; select 8"},
+	{"b_cmt_tight", "comment", "delete from t2 where id > %d/*;*"},
+	{"b_sq_last", "quote", "update t2 set c = 'v ; where id = %d"},
+	{"b_sq_mid", "quote", "select %d, 'abc ; select 8; select 9"},
+	{"b_sq_escaped_close", "quote", "select %d, 'abc\\' ; select 8"},
+	{"b_dq_last", "quote", "delete from t2 where c = \"v ; and id = %d"},
+	{"b_dq_mid", "quote", "select %d, \"abc ; select 8; select 9"},
+	{"b_bq_last", "quote", "select %d as `c ; from t2"},
+	{"b_bq_mid", "quote", "select %d as `abc ; select 8; select 9"},
+}
+
+var c17BrokenIdx = func() map[string]int {
+	m := map[string]int{}
+	for i, s := range c17Broken {
+		m[s.Name] = i
+	}
+	return m
+}()
+
 var c17ShapeIdx = func() map[string]int {
 	m := map[string]int{}
 	for i, s := range c17Shapes {
@@ -96,6 +127,7 @@ type c17Case struct {
 	SepB    []string `json:"sep_before"` // len(Shapes)-1
 	SepA    []string `json:"sep_after"`
 	Trail   string   `json:"trail"`
+	Broken  string   `json:"broken,omitempty"` // name of a c17Broken shape appended as the last piece ("" = none; Trail is then ignored)
 	FaultAt int      `json:"fault_at"` // rig: k-th backend exec fails (0 = none)
 	ViaRig  bool     `json:"via_rig"`
 	Text    string   `json:"text,omitempty"`
@@ -107,6 +139,9 @@ type c17Built struct {
 	Start []int    // offset of statement i in Text
 	End   []int
 	Traps int
+	// broken tail (lexically invalid last statement): offset where it starts, -1 = none
+	BrokenStart int
+	BrokenKind  string
 }
 
 func (c c17Case) build() c17Built {
@@ -134,12 +169,27 @@ func (c c17Case) build() c17Built {
 		}
 		sb.WriteString(txt)
 	}
-	sb.WriteString(c.Trail)
+	b.BrokenStart = -1
+	if c.Broken != "" {
+		bs := c17Broken[c17BrokenIdx[c.Broken]]
+		if len(c.Shapes) > 0 {
+			sb.WriteString("; ")
+		}
+		b.BrokenStart = sb.Len()
+		b.BrokenKind = bs.Kind
+		sb.WriteString(fmt.Sprintf(bs.Tmpl, 100+len(c.Shapes)))
+		b.Traps++
+	} else {
+		sb.WriteString(c.Trail)
+	}
 	b.Text = sb.String()
 	return b
 }
 
 func (c c17Case) key() string {
+	if c.Broken != "" {
+		return strings.Join(c.Shapes, ",") + "!" + c.Broken
+	}
 	return strings.Join(c.Shapes, ",")
 }
 
@@ -154,6 +204,9 @@ func (c c17Case) sig(clause string) string {
 // c17CheckSplit returns "" or the failed clause + description.
 func c17CheckSplit(b c17Built) (string, string) {
 	got, err := parser.SplitStatementToPieces(b.Text)
+	if b.BrokenStart >= 0 {
+		return c17CheckSplitBroken(b, got, err)
+	}
 	if err != nil {
 		return "split-error", fmt.Sprintf("SplitStatementToPieces(%q) error %v", b.Text, err)
 	}
@@ -170,6 +223,32 @@ func c17CheckSplit(b c17Built) (string, string) {
 		if strings.TrimSpace(got[i]) != strings.TrimSpace(b.Stmts[i]) {
 			return "split-text", fmt.Sprintf("SplitStatementToPieces(%q) piece %d = %q, constructed statement %q", b.Text, i, got[i], b.Stmts[i])
 		}
+	}
+	return "", ""
+}
+
+// c17CheckSplitBroken: the text ends in a lexically invalid statement. Pinned behaviour of the
+// unchanged tree: an unterminated /* comment makes the splitter return an ERROR (the session
+// splits the whole packet first, so nothing runs); an unterminated quote is handed on as ONE
+// piece holding the whole broken tail verbatim after exactly the valid statements (the backend
+// rejects it). Never acceptable: a piece cut out of the broken statement.
+func c17CheckSplitBroken(b c17Built, got []string, err error) (string, string) {
+	if err != nil {
+		return "", ""
+	}
+	if b.BrokenKind == "comment" {
+		return "broken-no-error", fmt.Sprintf("SplitStatementToPieces(%q) = %q without error although the last statement holds an unterminated comment", b.Text, got)
+	}
+	tail := strings.TrimSpace(b.Text[b.BrokenStart:])
+	want := append(append([]string{}, b.Stmts...), tail)
+	ok := len(got) == len(want) || len(got) == len(b.Stmts)
+	for i := 0; ok && i < len(got); i++ {
+		if strings.TrimSpace(got[i]) != strings.TrimSpace(want[i]) {
+			ok = false
+		}
+	}
+	if !ok {
+		return "broken-pieces", fmt.Sprintf("SplitStatementToPieces(%q) = %q; constructed: statements %q then the broken tail %q (whole or not at all)", b.Text, got, b.Stmts, tail)
 	}
 	return "", ""
 }
